@@ -11,6 +11,7 @@ import (
 
 	"github.com/CycloneDX/cyclonedx-go"
 	scalibr "github.com/google/osv-scalibr"
+	bproto "github.com/google/osv-scalibr/binary/proto"
 	"github.com/google/osv-scalibr/converter"
 	"github.com/google/osv-scalibr/extractor"
 	"github.com/google/osv-scalibr/extractor/filesystem"
@@ -240,6 +241,26 @@ func runWitness(repo, path string) {
 				if len(p.Locations) == 0 {
 					res["still_fails"] = true
 					detail = append(detail, fmt.Sprintf("%s emits %s@%s with no location", w.Extractor, p.Name, p.Version))
+				}
+			}
+		}
+		res["detail"] = detail
+	case "metadata-dropped-in-proto":
+		full := filepath.Join(repo, w.Fixture)
+		h, cleanup := reharvestDir(repo, w.Extractor, filepath.Dir(full), filepath.Base(full))
+		defer cleanup()
+		var detail []string
+		for _, g := range h.groups {
+			res2, err := bproto.ScanResultToProto(resultOf(g.pkgs...))
+			if err != nil {
+				continue
+			}
+			for i, pp := range res2.GetInventory().GetPackages() {
+				if g.pkgs[i].Metadata != nil && pp.GetMetadata() == nil {
+					res["still_fails"] = true
+					if len(detail) < 3 {
+						detail = append(detail, fmt.Sprintf("%s: package %s has metadata %s, the result proto has no metadata case", w.Extractor, g.pkgs[i].Name, metaTypeOf(g.pkgs[i].Metadata)))
+					}
 				}
 			}
 		}
